@@ -130,6 +130,48 @@ pub fn opt_flatten<T>(x: Option<Option<T>>) -> (r: Option<T>)
     ensures r == (match x { Some(Some(v)) => Some(v), _ => None })
 { match x { Some(Some(v)) => Some(v), _ => None } }
 
+// ------------------------------------------------------------------ allocation from declared counts (R23, C05)
+// C05: "the memory it allocates is bounded by a constant multiple of the number of input bytes it consumed, regardless of the counts
+// the input merely declares". A pre-allocation that is sized by a number read from the input (not by data already held) must therefore
+// stay below a constant; ALLOC_CAP elements is that constant here (generous: 2^20 elements). `Vec::reserve`/`with_capacity` also
+// panic ("capacity overflow") or abort the process when the request cannot be met, which the precondition excludes as well.
+pub spec const ALLOC_CAP: usize = 0x10_0000;
+#[verifier::external_body]
+pub fn vec_reserve<T>(v: &mut Vec<T>, additional: usize)
+    requires additional <= ALLOC_CAP
+    ensures final(v)@ == old(v)@
+{ v.reserve(additional) }
+#[verifier::external_body]
+pub fn vec_with_cap<T>(n: usize) -> (v: Vec<T>)
+    requires n <= ALLOC_CAP
+    ensures v@.len() == 0
+{ Vec::with_capacity(n) }
+// `(0..n).map(|_| vec![]).collect()`: n empty vectors, sized by a declared count
+#[verifier::external_body]
+pub fn vec_of_empty_vecs<T>(n: usize) -> (v: Vec<Vec<T>>)
+    requires n <= ALLOC_CAP
+    ensures v@.len() == n, forall|i: int| 0 <= i < n ==> (#[trigger] v@[i])@.len() == 0
+{ (0..n).map(|_| vec![]).collect() }
+// `xs.iter().map(|_| vec![]).collect()`: as many empty vectors as an existing vector has elements (bounded by data already held)
+#[verifier::external_body]
+pub fn vec_of_empty_vecs_like<S, T>(xs: &Vec<S>) -> (v: Vec<Vec<T>>)
+    ensures v@.len() == xs@.len(), forall|i: int| 0 <= i < xs@.len() ==> (#[trigger] v@[i])@.len() == 0
+{ xs.iter().map(|_| vec![]).collect() }
+// `v[i].push(x)` on a Vec<Vec<T>> (IndexMut is outside Verus)
+#[verifier::external_body]
+pub fn vec2_push<T>(v: &mut Vec<Vec<T>>, i: usize, x: T)
+    requires i < old(v)@.len()
+    ensures final(v)@.len() == old(v)@.len(), final(v)@[i as int]@ == old(v)@[i as int]@.push(x),
+        forall|j: int| 0 <= j < old(v)@.len() && j != i ==> #[trigger] final(v)@[j] == old(v)@[j]
+{ v[i].push(x) }
+// `usize::min` (Ord::min on integers)
+pub fn usize_min(a: usize, b: usize) -> (r: usize) ensures r == (if a <= b { a } else { b }) { if a <= b { a } else { b } }
+// `str::to_owned`
+pub uninterp spec fn string_bytes(s: &String) -> Seq<u8>;
+#[verifier::external_body]
+pub fn str_to_owned(s: &str) -> (r: String) ensures string_bytes(&r) == str_bytes(s)
+{ s.to_owned() }
+
 // ------------------------------------------------------------------ UTF-8 (R3 for from_utf8_unchecked)
 pub uninterp spec fn is_utf8(b: Seq<u8>) -> bool;
 pub uninterp spec fn str_bytes(s: &str) -> Seq<u8>;
